@@ -421,15 +421,19 @@ Definition no_body : body := mkBody KNone [].
 
 Definition accepted (r : result) : bool := match r with RResp c _ => c =? 202 | _ => false end.
 
-Definition blob_push (authc : bool) (p : policy) (cn : cancel) (bd : body) (sc : list beh) : push_out :=
+(* [warm0]: the token cache already holds a token for the push's own scope key, so the POST
+   carries Authorization from its first send (the normal state within a push session) *)
+Definition blob_push_gen (authc warm0 : bool) (p : policy) (cn : cancel) (bd : body) (sc : list beh) : push_out :=
   let post := if authc then auth_do_at false p cn no_body sc 0 else plain_do_at p cn no_body sc 0 in
   if accepted (a_res post) then
     let sc' := skipn (length (auth_attempts post)) sc in
-    let authed := match attempts (a_second post) with [] => false | _ => true end in
+    let authed := warm0 || match attempts (a_second post) with [] => false | _ => true end in
     let put := if authc && negb authed then auth_do_at false p cn bd sc' (a_time post)
                else plain_do_at p cn bd sc' (a_time post) in
     mkPush (a_res put) post (Some put) (a_time put)
   else mkPush (a_res post) post None (a_time post).
+
+Definition blob_push (authc : bool) := blob_push_gen authc false.
 
 (* manifestStore.push: an *auth.Client and a body without GetBody => the content is
    buffered in memory and GetBody installed *)
